@@ -182,3 +182,33 @@ def run(ctx):
             r6.fail(f.qualname, "active-node", f.file, f.lineno, f"Field.{mname}", "does not read the active node")
         else:
             r6.fail(f.qualname, "active-dof", f.file, f.lineno, f"Field.{mname}", "the returned array does not depend on the active dof: for a vector field (dof_n > 1) the value is the scalar N_node whatever the component, so a form such as u.dot(v) couples different components (mass matrix with full dof_n x dof_n blocks instead of N_a N_b delta_ij)")
+    copy_rule(ctx)
+
+
+def copy_rule(ctx):
+    """R13.7: the test field of a bilinear form is `field.copy()`: the copy must carry every piece of the field's state
+    (element group, dof count, quadrature, values, active node / dof). Either a deep copy, or a constructor call that
+    forwards every __init__ parameter."""
+    repo = ctx.repo
+    r = ctx.rule("R13.7", "Field.copy carries the whole state: deep copy, or every parameter of Field.__init__ is forwarded to the new instance", min_instances=1)
+    fc = repo.cls(FIELD)
+    f = fc.methods["copy"]
+    r.instance(fn=f.qualname)
+    rets = [n for n in ast.walk(f.node) if isinstance(n, ast.Return) and n.value is not None]
+    deep = rets and all(isinstance(n.value, ast.Call) and (dotted(n.value.func) or "") in ("copy.deepcopy", "deepcopy") and n.value.args and norm_text(n.value.args[0]) == "self" for n in rets)
+    if deep:
+        r.ok("Field.copy returns copy.deepcopy(self)")
+        return
+    init = fc.methods["__init__"]
+    params = [p for p in init.params() if p != "self"]
+    ctor = [n for n in ast.walk(f.node) if isinstance(n, ast.Call) and (dotted(n.func) or "") in ("Field", "type(self)", "self.__class__")]
+    if not ctor:
+        r.fail(f.qualname, "copy", f.file, f.lineno, "Field.copy", "the copy is neither a deep copy nor a new Field built from the state of self")
+        return
+    c = ctor[0]
+    given = set(params[: len(c.args)]) | {k.arg for k in c.keywords if k.arg}
+    missing = [p for p in params if p not in given]
+    if missing:
+        r.fail(f.qualname, f"copy-drops:{missing[0]}", f.file, c.lineno, "Field.copy", f"the new Field is built without `{missing[0]}` (falls back to the default): in BiLinearForm.Integrate_e the trial field u and the weights use the field's quadrature while the test field v = field.copy() uses another - element matrices are wrong or mis-shaped")
+    else:
+        r.ok("Field.copy forwards every __init__ parameter")
